@@ -77,6 +77,8 @@ pub struct DiskInner {
     pub steps: u64,
     pub fault: Option<FaultPlan>,
     pub fault_fired: Option<(u64, &'static str)>,
+    /// file extension ("wal", "ndb", ...) of the operation the fault hit
+    pub fault_file: String,
     uuid_names: Vec<String>,
     pub unknown_paths: Vec<String>,
 }
@@ -260,6 +262,16 @@ impl DiskInner {
                 }
             };
             self.fault_fired = Some((step, kind_name));
+            let p = match op {
+                IoOp::Create { path }
+                | IoOp::Remove { path }
+                | IoOp::Mkdir { path }
+                | IoOp::Write { path, .. }
+                | IoOp::SetLen { path, .. }
+                | IoOp::Sync { path, .. } => *path,
+                IoOp::Rename { from, .. } => *from,
+            };
+            self.fault_file = p.extension().map(|e| e.to_string_lossy().into_owned()).unwrap_or_default();
         }
         // journal what will actually happen
         match (op, verdict) {
